@@ -49,7 +49,8 @@ Configs ==
 ValidCfg(c) == Valid(c[Len(c)].cls, c[Len(c)].o)
 
 OptPool == CASE OptPoolSel = "small" -> << x, S1, N("Product", << S1, S1 >>), K4 >>
-             [] OptPoolSel = "six"   -> << x, K4, S1, S1f, N("Product", << S1, S1 >>), CSE0(S1) >>
+             [] OptPoolSel = "six"   -> << x, K4, S1, S1f, N("Product", << S1, S1 >>), CSE0(S1),
+                                           N("Sum", << y, K4f >>) >>
              [] OptPoolSel = "core"  -> << x, K4, K4f, S1, S1f, N("Product", << S1, S1 >>),
                                            N("Product", << S1, y >>), CSE0(S1) >>
 OptArgs == CASE OptArgSel = "two"  -> << NoArgs, Args(<< IntV(1) >>, << >>) >>
